@@ -83,9 +83,9 @@ func init() {
 				return Stage{Name: name, Scenario: "c05conc", Args: "props=C05", Children: children, Cases: cases, Race: race, GOMAXPROCS: gmp, Env: []string{c05Hooks}, Timeout: 20 * time.Minute}
 			}
 			if tier == "thorough" {
-				return []Stage{mk("g16", 16, 16, 20, false), mk("g4", 4, 16, 20, false), mk("g2", 2, 16, 20, false), mk("race", 8, 12, 6, true)}
+				return []Stage{mk("g16", 16, 16, 20, false), mk("g4", 4, 16, 20, false), mk("g2", 2, 16, 20, false), mk("race", 8, 12, 6, true), {Name: "bulk", Scenario: "sdbulk", Args: "props=C05,huge=1", Children: 4, Cases: 2, Timeout: 10 * time.Minute}}
 			}
-			return []Stage{mk("g16", 16, 6, 3, false), mk("g4", 4, 4, 2, false), mk("g2", 2, 4, 2, false), mk("race", 8, 4, 1, true)}
+			return []Stage{mk("g16", 16, 6, 3, false), mk("g4", 4, 4, 2, false), mk("g2", 2, 4, 2, false), mk("race", 8, 4, 1, true), {Name: "bulk", Scenario: "sdbulk", Args: "props=C05,huge=1", Children: 1, Cases: 1, Timeout: 10 * time.Minute}}
 		},
 		Post: func(res *Result) {
 			checkRegisters(res, "C05", "not-linearizable")
